@@ -11,7 +11,8 @@ ANCHORS = ['base_wallet:BaseWallet.from_extended_key', 'base_wallet:BaseWallet.b
 RULE = ("full wallet W from a random seed x both networks; export node E at a random path of depth 0..6 (hardened steps "
         "allowed above E); ALL six public version prefixes over the run; watch-only wallet V = from_extended_key(E.xpub(v)); "
         "non-hardened sub-paths of length 0..5 with edge indexes; five address kinds; every string leaf V returns is "
-        "classified by an independent decoder; distinct = distinct (monitor, case) digests")
+        "classified by an independent decoder; distinct = distinct (monitor, case) digests"
+        " EXTENSIONS: + watch-only wallets built on caller-parsed nodes (string, bytes, streams, default network flag), the full wallet asked for the private data of the same node first, listings ending at 2^31, 2^18+600 further derivations on the parent of held watch-only children (fast mode)")
 LEVEL_TEXT = ("For each (W, E, version) the real watch-only wallet's nodes, addresses and extended public keys are compared "
               "with the reference derivation below E (which equals what the full wallet computes, also cross-checked on the "
               "real full wallet); private-data requests must raise or be None; hardened derivation must raise; every string "
@@ -280,8 +281,17 @@ def gen_case(rnd, j):
 def run(ctx):
     for j in range(ctx.scale(150, 8000)):
         judge_triple(ctx, gen_case(ctx.rnd, j + ctx.shard))
+    # metadata of watch-only children that the caller still holds after their parent has served 2^18 + 600 further derivations
+    # (fast mode, see c13.judge_capacity / inject.FastEC)
+    if ctx.mine_once(4):
+        from .c13 import judge_capacity
+        judge_capacity(ctx, {"seed": gen.rbytes(ctx.rnd, 32), "testnet": bool(ctx.seed & 1), "kind": "public",
+                             "n": (1 << 18) + 600 if not ctx.thorough else (1 << 20) + 600, "fast": True, "how": "mixed"})
 
 
 def replay(ctx, monitor, case):
+    if monitor == "capacity":
+        from .c13 import judge_capacity
+        return judge_capacity(ctx, case)
     case.pop("sub", None), case.pop("index", None), case.pop("via", None), case.pop("interval", None), case.pop("looked_up_first", None)
     judge_triple(ctx, case)
